@@ -44,7 +44,7 @@ type TargetRun struct {
 }
 
 func newEngine(prog *ssa.Program, spkgs []*ssa.Package) *Engine {
-	return &Engine{prune: true, workers: workerCount(), prog: prog, pkgs: spkgs, loops: map[string]map[int]*LoopAnn{}, heapSorts: map[string]string{}, opaque: map[string]bool{}, siteOrd: map[ssa.Instruction]int{}}
+	return &Engine{prune: true, workers: workerCount(), prog: prog, pkgs: spkgs, loops: map[string]map[int]*LoopAnn{}, heapSorts: map[string]string{}, opaque: map[string]bool{}, contracts: map[string]*Contract{}, siteOrd: map[ssa.Instruction]int{}}
 }
 
 func workerCount() int {
@@ -129,6 +129,9 @@ func (e *Engine) verify2(t *Target) {
 	for i, fs := range fins {
 		if i == 0 || tier == "thorough" {
 			e.cover(fs, "cover.exit")
+		}
+		if c := e.contracts[fn.String()]; c != nil {
+			e.frameCheck(fs, c, args)
 		}
 		switch t.D.Kind {
 		case "lemma", "bounded":
@@ -239,22 +242,45 @@ type solverRes struct {
 	ms                 int64
 }
 
-// runSolvers races the three back ends on one script; the first definitive answer wins and the others are killed.
+// runSolvers races the back ends on one script: cvc5 starts at once (measured: it answers most of these mixed
+// array/bit-vector VCs in well under a second), z3 5.1 joins after 1.5 s and z3 4.8 after 6 s if there is still no
+// answer. The first definitive answer wins and the others are killed.
 func runSolvers(script string, tmo int, dir string, tag string) solverRes {
 	fn := filepath.Join(dir, tag+".smt2")
 	os.WriteFile(fn, []byte(script), 0644)
+	cmds := []struct {
+		delay time.Duration
+		argv  []string
+	}{
+		{0, []string{"cvc5", "--tlimit=" + fmt.Sprint(tmo*1000), fn}},
+		{1500 * time.Millisecond, []string{"z3-new", "-T:" + fmt.Sprint(tmo), fn}},
+		{6 * time.Second, []string{"z3", "-T:" + fmt.Sprint(tmo), fn}},
+	}
 	ctx, cancel := context.WithCancel(context.Background())
 	defer cancel()
-	cmds := [][]string{{"z3-new", "-T:" + fmt.Sprint(tmo), fn}, {"cvc5", "--tlimit=" + fmt.Sprint(tmo*1000), fn}, {"z3", "-T:" + fmt.Sprint(tmo), fn}}
 	ch := make(chan solverRes, len(cmds))
-	for _, sv := range cmds {
-		go func(sv []string) {
-			st := time.Now()
+	t0 := time.Now()
+	for _, c := range cmds {
+		go func(delay time.Duration, sv []string) {
+			if delay > 0 {
+				select {
+				case <-ctx.Done():
+					ch <- solverRes{sv[0], "unknown", "not started", 0}
+					return
+				case <-time.After(delay):
+				}
+			}
+			procSem <- struct{}{} // at most one solver process per core: over-subscription makes every VC slow
+			defer func() { <-procSem }()
+			if ctx.Err() != nil {
+				ch <- solverRes{sv[0], "unknown", "not started", 0}
+				return
+			}
 			b, _ := exec.CommandContext(ctx, sv[0], sv[1:]...).CombinedOutput()
 			out := strings.TrimSpace(string(b))
 			l := strings.SplitN(out, "\n", 2)[0]
-			ch <- solverRes{sv[0], strings.TrimSpace(l), out, time.Since(st).Milliseconds()}
-		}(sv)
+			ch <- solverRes{sv[0], strings.TrimSpace(l), out, time.Since(t0).Milliseconds()}
+		}(c.delay, c.argv)
 	}
 	var last solverRes
 	var outs []string
@@ -264,16 +290,17 @@ func runSolvers(script string, tmo int, dir string, tag string) solverRes {
 		if r.first == "unsat" || r.first == "sat" {
 			return r
 		}
-		if k == 0 || last.first == "" {
-			last = r
-		}
+		last = r
 	}
+	last.ms = time.Since(t0).Milliseconds()
 	if last.first != "unknown" && last.first != "timeout" {
 		last.first = "unknown"
 	}
 	last.out = strings.Join(outs, "\n")
 	return last
 }
+
+var procSem = make(chan struct{}, runtime.NumCPU())
 
 func truncate(s string, n int) string {
 	if len(s) > n {
@@ -287,13 +314,10 @@ func (e *Engine) discharge(tmo int) {
 	if err != nil {
 		panic(err)
 	}
-	defer os.RemoveAll(dir)
+	if os.Getenv("GOVC_KEEP") == "" { defer os.RemoveAll(dir) } else { fmt.Println("VCs kept in", dir) }
 	sort.SliceStable(e.obs, func(i, j int) bool { return e.obs[i].Name < e.obs[j].Name })
 	var wg sync.WaitGroup
-	par := runtime.NumCPU() / 3
-	if par < 1 {
-		par = 1
-	}
+	par := runtime.NumCPU() * 2
 	sem := make(chan struct{}, par)
 	for i, o := range e.obs {
 		if o.Triv {
